@@ -22,30 +22,29 @@ FUNCTIONS = [_C + f for f in ('equatorial2ecliptical', 'ecliptical2equatorial', 
 
 MANIFEST = dict(
     text=("Lean 4 theorems (Props/C05.lean, over the reals, Mathlib) about the model of the six conversions and the "
-          "separation functions, for every direction with |latitude| < 90 and every obliquity / observer latitude: each "
-          "conversion never raises and maps the direction vector by the rotation of its frame pair (Rx(eps); the "
-          "fixed galactic rotation built from 192.25, 27.4, 123/303, shown to take the pole RA 192.25 Dec 27.4 to the "
-          "galactic pole and the celestial pole to l = 123; the horizontal one from the observer's latitude); the "
-          "rotations of a pair are inverse to each other and orthogonal, hence converting there and back returns the "
-          "same direction and, for coordinates in the documented ranges, exactly the same two numbers, and the angle "
-          "between any two directions is unchanged; longitudes lie in [0,360) where the code calls to_positive and in "
-          "(-180,180] otherwise, latitudes in [-90,90]; angular_separation never raises, its cosine is the dot product, "
-          "it lies in [0,180] and is symmetric; relative_position_angle is the argument of the (north, east) "
-          "components at the second body, is negated when the right ascensions are exchanged and has opposite "
-          "signs for the two orderings of the bodies; circle_diameter lies between the largest separation a and "
-          "2a/sqrt(3) (given the strict triangle inequality between the three separations). The exact poles "
-          "(cos(latitude) = 0, where the source evaluates tan) are outside the theorems. The model is tied to /repo by "
+          "separation functions, for EVERY direction (both poles included; the source forms x, y, z and takes "
+          "atan2(y, x), atan2(z, sqrt(x*x + y*y))) and every obliquity / observer latitude: each conversion never "
+          "raises and maps the direction vector by the rotation of its frame pair (Rx(eps); the fixed galactic "
+          "rotation built from 192.25, 27.4, 123/303, shown to take the pole RA 192.25 Dec 27.4 to the galactic pole "
+          "and the celestial pole to l = 123; the horizontal one from the observer's latitude); the rotations of a "
+          "pair are inverse to each other and orthogonal, hence converting there and back returns the same "
+          "direction and, for coordinates in the documented ranges and a latitude strictly between the poles, "
+          "exactly the same two numbers, and the angle between any two directions is unchanged; longitudes lie in "
+          "[0,360) where the code calls to_positive and in (-180,180] otherwise, latitudes in [-90,90]; "
+          "angular_separation never raises, its cosine is the dot product, it lies in [0,180] and is symmetric; "
+          "relative_position_angle is the argument of the (north, east) components at the second body for every "
+          "pair of directions, is negated when the right ascensions are exchanged and has opposite signs for the "
+          "two orderings of the bodies; circle_diameter lies between the largest separation a and 2a/sqrt(3) "
+          "(given the strict triangle inequality between the three separations). The model is tied to /repo by "
           "running its binary64 instantiation against the real functions bit for bit; the numerical clauses "
           "(1e-9 degree) are measured on the implementation against an independent vector/matrix oracle over uniform "
           "directions, both poles and caps down to 1e-9 degree around them, the poles of the other frame, the "
           "equator, the 0/360 seam, pairs from 1e-7 to 179.999 degrees apart, obliquity 0-30, observer latitude "
-          "-90..90 incl. +-90, hour angle 0-360. straight_line: tie, ranges and a collinearity sanity check only."),
+          "-90..90 incl. +-90, hour angle 0-360. straight_line: tie, ranges and a collinearity check only."),
     note=("Trusted: Lean kernel, Mathlib, axioms propext/Classical.choice/Quot.sound; the hand-written model "
           "(lean/templates/Coords.lean) and its bit-exact correspondence run; the idealisation binary64 -> real is "
-          "measured, not proved. Known findings (findings.d/C05.json): asin-based latitudes lose accuracy (up to 1.2e-6 "
-          "degree) and raise ValueError within 1e-3 degree of a pole of the target frame; angular_separation's "
-          "(1-cos)/2 haversine and relative_position_angle lose accuracy below about 4e-3 degree and above 179.99 "
-          "degrees; straight_line raises ValueError for exactly aligned bodies."),
+          "measured, not proved. The six findings of the first version of this check (asin latitudes, haversine, "
+          "position angle, straight_line domain error) are fixed in /repo by findings.d/proposed-1..4.patch."),
     technique="Lean 4 proof over the reals (rotation matrices, Complex.arg) + bit-exact model/implementation correspondence + predicate check",
     ref='6 C05')
 
@@ -192,6 +191,17 @@ def check_sep(ctx, a1, d1, a2, d2, klass):
     if abs(d1) < 90.0 and abs(d2) < 90.0:
         ref = S.pa_ref(a1, d1, a2, d2)
         dev = S.angdiff(p[0], ref)
+        if 0.1 <= truth <= 179.9:
+            # a second, plainly vectorial evaluation (east and north unit vectors at body 2), well conditioned here
+            l2, b2 = math.radians(a2), math.radians(d2)
+            u1 = S.dirv(a1, d1)
+            north = (-math.sin(b2) * math.cos(l2), -math.sin(b2) * math.sin(l2), math.cos(b2))
+            east = (-math.sin(l2), math.cos(l2), 0.0)
+            vec = math.degrees(math.atan2(S.dot(u1, east), S.dot(u1, north)))
+            dv = S.angdiff(p[0], vec)
+            ctx.deviation('relative_position_angle_vs_vectors', dv if abs(d2) < 89.9 else 0.0)
+            S.predicate(ctx, PROPERTY, 'position_angle_vs_vectors', dv <= TOL or abs(d2) >= 89.9, inp,
+                        {'impl': p[0], 'vectors': vec, 'dev_deg': dv}, klass)
         record(ctx, 'relative_position_angle', dev, inp)
         S.predicate(ctx, PROPERTY, 'position_angle_value', dev <= TOL, inp, {'impl': p[0], 'cross_dot': ref, 'dev_deg': dev}, klass)
         # antisymmetry, in the two senses that are true: exchanging the right ascensions negates the
